@@ -146,12 +146,13 @@ fn mkdos3x(vol: Option<&String>,boot: bool,img: Box<dyn DiskImage>) -> Result<Ve
     }
 }
 
-fn mkprodos(vol: Option<&String>,boot: bool,img: Box<dyn DiskImage>) -> Result<Vec<u8>,DYNERR> {
+fn mkprodos(vol: Option<&String>,boot: bool,kind: &DiskKind,img: Box<dyn DiskImage>) -> Result<Vec<u8>,DYNERR> {
     if boot {
         error!("{}",BOOT_MESS);
         return Err(Box::new(CommandError::UnsupportedItemType));
     }
-    let floppy = match img.kind() {
+    // the kind that was asked for: an image type that keeps blocks only would report none
+    let floppy = match *kind {
         DiskKind::D35(_) => true,
         DiskKind::D525(_) => true,
         DiskKind::D8(_) => true,
@@ -289,7 +290,7 @@ pub fn mkdsk(cmd: &clap::ArgMatches) -> STDRESULT {
                 "cpm3" => mkcpm(maybe_vol,boot,&kind,img,3),
                 "dos32" => mkdos3x(maybe_vol,boot,img),
                 "dos33" => mkdos3x(maybe_vol,boot,img),
-                "prodos" => mkprodos(maybe_vol,boot,img),
+                "prodos" => mkprodos(maybe_vol,boot,&kind,img),
                 "pascal" => mkpascal(maybe_vol,boot,img),
                 "fat" => mkfat(maybe_vol,boot,img),
                 _ => panic!("unreachable")
